@@ -104,6 +104,8 @@ def all_cells():
         for first in ("app-disconnect-logout", "reader-integrity-logout"):
             for second in (("eof", "reset", "logout-in", "app-disconnect", "app-disconnect-logout") if first.startswith("app") else ("app-disconnect", "app-disconnect-logout")):
                 cells.append(("C-overlap", role, first, second))
+                # ... and the suspended drain() of the first then ends the way asyncio ends it for a transport closed under a writer
+                cells.append(("C-overlap", role, first, second, "drain-raises"))
     # C: other disconnect causes, then continuation
     for role in ("acceptor", "initiator"):
         for st in ("active", "awaiting"):
@@ -539,7 +541,8 @@ async def cell_C_overlap(acc, clock, cell, cid):
     from asyncfix.connection import ConnectionState as CS
     from vf.sim.net import settle
     from vf.sim.sched import Sched
-    _, role, first, second = cell
+    _, role, first, second = cell[:4]
+    drain_raises = len(cell) > 4
     b = await build(clock, role, "active")
     if b is None:
         acc.add("start_state_not_reached")
@@ -548,9 +551,12 @@ async def cell_C_overlap(acc, clock, cell, cid):
     o = Obs(ep, j)
     E_ = o.live_in
     sched = Sched()
+    writer0 = ep.vf_writer
 
     async def drain_hook():
         await sched.wait("drain")
+        if drain_raises and writer0.closed:
+            raise ConnectionResetError("Connection lost")
     ep.vf_writer.drain_hook = drain_hook
     tasks = []
     loop = asyncio.get_running_loop()
@@ -595,7 +601,9 @@ async def cell_C_overlap(acc, clock, cell, cid):
         return acc.violation("overlapping-disconnects:on_disconnect-not-exactly-once", f"{first} suspended in drain(), then {second}: on_disconnect called {n.disc - o.disc} times", w, cid)
     if n.rx != o.rx:
         return acc.violation("overlapping-disconnects:delivery", "a message was delivered", w, cid)
-    ep.vf_writer.drain_hook = None
+    writer0.drain_hook = None
+    if getattr(ep, "vf_writer", None) is not None:
+        ep.vf_writer.drain_hook = None
     await continuation(acc, clock, ep, j, peer, cid, w, f"C-overlap/{first}/{second}")
 
 
